@@ -670,6 +670,7 @@ def sim_idle_stream(ctx, n):
         w = simgen.gen_world(ctx.rng, policy=ctx.rng.choice(["EDF", "FIFO", "LSF"]), conditionals=ctx.rng.random() < 0.5)
         if simgen.signature(w):
             continue
+        w["wall_limit"] = 6
         worlds.append(w)
     try:
         runs = core.run_impl("sim.py", {"worlds": worlds}, timeout=900)["runs"]
@@ -679,10 +680,11 @@ def sim_idle_stream(ctx, n):
     idle_items, idle_where, use_items, use_where = [], [], [], []
     stats = {"worlds": len(worlds), "ended": 0, "idle_instants": 0, "usage_observations": 0, "not_evaluated": 0}
     for wi, (w, r) in enumerate(zip(worlds, runs)):
-        if r.get("status") != "ended":
+        ended = r.get("status") == "ended"
+        if r.get("status") == "adapter-error" or not r.get("log"):
             stats["not_evaluated"] += 1
             continue
-        stats["ended"] += 1
+        stats["ended"] += ended          # a run that did not end is still monitored at every clock step it reached
         latest = {}
         try:
             for li, e in enumerate(r["log"]):
@@ -696,7 +698,7 @@ def sim_idle_stream(ctx, n):
                         idle_where.append([wi, li, wn])
                     stats["idle_instants"] += 1
             state = {x[0]: x[1] for x in r.get("final", [])}
-            for wn, u, placed in r.get("idle", []):
+            for wn, u, placed in (r.get("idle", []) if ended else []):
                 if not any(state.get(t) == "RUNNING" for t in placed):
                     idle_items.append(glist(["(%s, %s)" % (gz(a), gz(t)) for _, a, t in u]))
                     idle_where.append([wi, "end", wn])
@@ -714,7 +716,13 @@ def sim_idle_stream(ctx, n):
             ("M-sim-idle", idle_items, idle_where, "check_idle", "no task is running but a live worker is not back at full capacity (resources leaked by the simulation)")):
         if not items:
             continue
-        bad = ctx.monitor_stream(name, HDR, "list (Z * Z)", fn, items, shard=2000)
+        first = {}
+        for i, t in enumerate(items):
+            first.setdefault(t, i)
+        uniq = sorted(first.values())
+        ubad = ctx.monitor_stream(name, HDR, "list (Z * Z)", fn, [items[i] for i in uniq], shard=2000)
+        ctx.cov["streams"]["%s:monitor" % name]["observations_before_dedup"] = len(items)
+        bad = [uniq[b] for b in ubad]
         for b in bad[:2]:
             ctx.violation("%s_%d" % (name.replace("-", ""), b), {"monitor": name, "what": what, "where": where[b],
                                                                    "world": worlds[where[b][0]], "usage": items[b]})
@@ -733,7 +741,7 @@ def run(ctx):
     built = ctx.build("C04", deps=["Model/Worker.v"])
     _t(ctx, "build")
     quick = ctx.tier == "quick"
-    n = 400 if quick else 4000
+    n = 400 if quick else 3000
     cases = [gen_case(ctx.rng, 10 if quick else 14) for _ in range(n)]
     runs = core.run_impl("ledger.py", {"cases": cases})["runs"]
     impl = [r["obs"] for r in runs]
@@ -846,7 +854,7 @@ def run(ctx):
 
 def _run_sim_idle(ctx):
     try:
-        sim_idle_stream(ctx, 30 if ctx.tier == "quick" else 300)
+        sim_idle_stream(ctx, 30 if ctx.tier == "quick" else 200)
     except core.ModelEvalError as e:
         ctx.broken.append({"kind": "monitor", "name": "S-sim-idle", "detail": str(e)[-600:]})
 
